@@ -545,6 +545,8 @@ def _pds_to_dict(field_data):
         # get the pds tag id
         pds_field_tag = field_data[field_pointer:field_pointer+4]
         LOGGER.debug("pds_field_tag=[%s]", pds_field_tag)
+        if not (pds_field_tag.isascii() and pds_field_tag.isdigit()):
+            raise ValueError(f'PDS tag [{pds_field_tag}] is not numeric')
 
         # get the pds length
         pds_field_length = int(field_data[field_pointer+4:field_pointer+7])
